@@ -545,6 +545,30 @@ def convention_names(c: int, order: bool) -> bool:
     return H.done(ok)
 
 
+# ------------------------------------------------------------------ keyword names reach **kwargs collectors verbatim
+KW_NAMES = ['x', 'x_', 'x__', 'a_b', 'a_b_', 'from_', 'to_', 'format_', 'k_1', 'X_']
+KW_TEXTS = [('let({n} => 1) -> ${n}', 1), ('call(let, [], {{{n} => 1}}) -> ${n}', 1), ('def(f, ${n} * 2) -> f({n} => 4)', 8),
+            ('def(f, ${n} * 2) -> call(f, [], {{{n} => 4}})', 8), ('let({n} => 2, zz => 3) -> [${n}, $zz]', [2, 3]),
+            ('dict({n} => 1).keys().toList()', ['{n}']), ('let({n} => 1) -> let(q => 2) -> ${n}', 1)]
+KNBOX = [(i,) for i in range(12)]
+
+
+def kwargs_names(n: int, t: int) -> bool:
+    """
+    pre: 0 <= n < len(KW_NAMES) and 0 <= t < len(KW_TEXTS)
+    post: _
+    """
+    # a keyword written in an expression (name => value) and the same keyword handed to call() reach a function that
+    # collects **kwargs (let, def-defined functions, dict) under exactly the name written
+    name, (tpl, want) = KW_NAMES[KNBOX[n][0]], KW_TEXTS[KNBOX[t][0]]
+    with H.NoTracing():
+        got = outcome(tpl.format(n=name), {}, G.ROOT.create_child_context())
+        if isinstance(want, list):
+            want = [w.format(n=name) if isinstance(w, str) else w for w in want]
+        ok = got[0] == 'ok' and same_value(got[1], want)
+    return H.done(ok)
+
+
 def conditions(tier, seed):
     quick = tier == 'quick'
     out = [{'name': 'operator_call', 'func': 'operator_call', 'timeout': 400,
@@ -557,6 +581,10 @@ def conditions(tier, seed):
            {'name': 'kind_filter', 'func': 'kind_filter', 'timeout': 200,
             'bounds': '%d calls of method-only / function-only / extension functions in both spellings (and through call()) evaluated in a '
                       'plain child, two MultiContext compositions and a LinkedContext over the standard context' % len(KIND_TEXTS)},
+           {'name': 'kwargs_names', 'func': 'kwargs_names', 'timeout': 200,
+            'bounds': '%d keyword names (trailing / inner underscores, digits, upper case) x %d expressions handing them to **kwargs '
+                      'collectors (let, def-defined functions, dict) in expression syntax and through call(): the name arrives verbatim'
+                      % (len(KW_NAMES), len(KW_TEXTS))},
            {'name': 'convention_names', 'func': 'convention_names', 'timeout': 200,
             'bounds': 'standard contexts created with the CamelCase and the Python naming convention in one process (both creation '
                       'orders of use): keyword names of multi-word parameters follow the context\'s own convention'}]
@@ -696,6 +724,11 @@ def replay(cond, args):
         return {'reproduced': True, 'key': 'C12/kind-filter',
                 'what': '%s evaluated in host context #%d (0 plain child, 1-2 MultiContext, 3 LinkedContext): expected %r' % (
                     KIND_TEXTS[args['t']][0], args['c'], KIND_TEXTS[args['t']][1])}
+    if cond['func'] == 'kwargs_names':
+        text = KW_TEXTS[args['t']][0].format(n=KW_NAMES[args['n']])
+        return {'reproduced': not kwargs_names(**args), 'key': 'C12/kwargs-names',
+                'what': '%s gives %r: the keyword name does not arrive as written (expected %r)' % (
+                    text, outcome(text, {}, G.ROOT.create_child_context()), KW_TEXTS[args['t']][1])}
     if cond['func'] == 'convention_names':
         return {'reproduced': True, 'key': 'C12/convention-names',
                 'what': 'keyword names of %r do not follow the naming convention of the context they are evaluated in (contexts '
